@@ -10,8 +10,9 @@ R7.1 [AVN, relational] batched == solo: training.wrap(env) (Vmap / DomainRandomi
 R7.4 [AVN, re-entrancy law] on the un-vmapped stack (Episode -> AutoReset over a bare env whose step shares
      info with its input) stepping twice from the same state object gives the same result: the
      necessary and sufficient condition for eager evaluation to agree with jit on a re-used state.
-R7.2 [STRUCT] lifting sites: VmapWrapper maps self.env.reset / step over all arguments; the domain
-     randomisation wrapper maps (sys_v, state, action) with in_axes [self._in_axes, 0, 0].
+R7.2 [AVN] lifting: VmapWrapper.reset / step give member b exactly inner reset(rng[b]) / step(state[b],
+     action[b]) -- a semantic statement, indifferent to how the vmap is spelled; the domain randomisation
+     wrapper's lifting (per-member system, state, action) is decided by R7.1.
 R7.3 [STRUCT] no cross-member channel in mapped code: no collectives / axis names, no `axis=` passed
      to safe_norm / normalize (the parameter is ignored), no global or attribute writes in env
      reset / step (shared with C16 R16.4).
@@ -158,26 +159,40 @@ def reentrant(U, rep, tier):
 
 
 def lifting_sites(U, rep):
-  for m, nparams in (('reset', 1), ('step', 2)):
-    f = U.func('%s.VmapWrapper.%s' % (TW, m))
-    rets = [n for n in own_nodes(f.node) if isinstance(n, ast.Return)]
-    params = [a.arg for a in f.node.args.args][1:]
-    ok = False
-    if len(rets) == 1 and isinstance(rets[0].value, ast.Call) and isinstance(rets[0].value.func, ast.Call):
-      outer, inner = rets[0].value, rets[0].value.func
-      ok = call_name(inner, f.mod) == 'jax.vmap' and len(inner.args) == 1 and not inner.keywords and \
-          dotted(inner.args[0]) == ['self', 'env', m] and [ast.unparse(a) for a in outer.args] == params and not outer.keywords
-    rep.check(ok, 'R7.2', 'VmapWrapper.%s = jax.vmap(self.env.%s)(%s)' % (m, m, ', '.join(params)),
-              'VmapWrapper.%s no longer lifts the inner %s over all of its arguments with default axes' % (m, m), where=f.where())
-  for m, axes in (('reset', '[self._in_axes, 0]'), ('step', '[self._in_axes, 0, 0]')):
-    f = U.func('%s.DomainRandomizationVmapWrapper.%s' % (TW, m))
-    ok = False
-    for n in ast.walk(f.node):
-      if isinstance(n, ast.Call) and call_name(n, f.mod) == 'jax.vmap':
-        ia = kwarg(n, 'in_axes', 1)
-        ok = ia is not None and ast.unparse(ia) == axes
-    rep.check(ok, 'R7.2', 'DomainRandomizationVmapWrapper.%s in_axes = %s' % (m, axes),
-              'the randomised system / state / action are not mapped with in_axes %s' % axes, where=f.where())
+  """R7.2 (semantic, not syntactic): VmapWrapper.reset / step applied to a batch give each member exactly what the
+  inner env's reset / step give that member -- however the lifting is spelled (vmap of the bound method, of a
+  lambda, in_axes given or defaulted).  The domain-randomisation wrapper's lifting is decided by R7.1."""
+  B = 3
+  I = new_interp(U.repo)
+  S = c15.Script(I)
+  env = S.env()
+  w = c15.mk(I, 'VmapWrapper', env)
+  rngs = symarr('key', (B, 2))
+  acts = symarr('a', (B, 2))
+  f = U.func(TW + '.VmapWrapper.reset')
+  sb = I.apply(I.attr(w, 'reset'), [rngs], {})
+  bad = None
+  solos = []
+  for b in range(B):
+    ss = S.reset(rngs[b])
+    solos.append(ss)
+    if not (same(asarr(sb.f['obs'])[b], ss.f['obs']) and same(asarr(sb.f['pipeline_state'].f['q'])[b], ss.f['pipeline_state'].f['q'])):
+      bad = b
+  rep.check(bad is None, 'R7.2', 'VmapWrapper.reset: member b of the batch == inner reset(rng[b])',
+            'VmapWrapper.reset does not give member %s the inner reset of its own key' % bad, where=f.where(),
+            construct='batch of %d symbolic keys' % B)
+  f = U.func(TW + '.VmapWrapper.step')
+  nb = I.apply(I.attr(w, 'step'), [c15.clone(sb), acts], {})
+  bad = None
+  for b in range(B):
+    ns = S.step(solos[b], acts[b])
+    ok = same(asarr(nb.f['obs'])[b], ns.f['obs']) and same(asarr(nb.f['reward'])[b], ns.f['reward']) and \
+        same(asarr(nb.f['done'])[b], ns.f['done']) and same(asarr(nb.f['pipeline_state'].f['q'])[b], ns.f['pipeline_state'].f['q'])
+    if not ok:
+      bad = b
+  rep.check(bad is None, 'R7.2', 'VmapWrapper.step: member b of the batch == inner step(state[b], action[b])',
+            'VmapWrapper.step does not give member %s the inner step of its own state and action' % bad, where=f.where(),
+            construct='batch of %d symbolic states / actions' % B)
 
 
 COLLECTIVES = ('psum', 'pmean', 'pmax', 'pmin', 'all_gather', 'axis_index', 'ppermute', 'all_to_all')
